@@ -53,6 +53,14 @@ def cases(tier, rng, schema, feats):
             hid = b"\xff\xff\xff\xff" + bytes([0x90]) + len(body).to_bytes(2, "big") + body
             out.append(f"C11.hid.{b}.{k}\tdec2\t{bytes([b]).hex()}{hid.hex()}")
             k += 1
+    # payloads that are one complete CBOR item nested 1..24 levels deep (arrays, maps, tags): the command byte alone decides
+    for b in range(256):
+        k = 0
+        for depth in ((1, 4, 8, 9, 10, 16, 24) if (tier != "quick" and True) or b in (0x04, 0x07, 0x08, 0x0B, 0x09, 0x0D, 0x40, 0x55, 0x80, 0xFF, 0x42, 0x7F) else (9, 16)):
+            for kind in ("array", "map", "tag"):
+                unit = {"array": b"\x81", "map": b"\xa1\x01", "tag": b"\xc1"}[kind]
+                out.append(f"C11.deep.{b}.{k}\tdec2\t{bytes([b]).hex()}{(unit * depth + bytes([0])).hex()}")
+                k += 1
     # 0x41 decodes exactly like 0x0A: every sub-command, with and without parameters / PIN members
     if "ctap2::credential_management::Request" in schema:
         from .. import gen as _gen
